@@ -266,6 +266,7 @@ func checkC04(r *Run) propMeta {
 	// ---- R4 materialised parameters
 	checkMaterializedParameters(r)
 	checkCommentEcho(r)
+	checkEscapedTextFinal(r, r.MustPkg("cypher/models/pgsql/format"), r.MustPkg("cypher/models/pgsql/translate"), r.MustPkg("cypher/models/pgsql"))
 	r.Floor("C04-R2-raw-text-node", 40)
 	r.Floor("C04-R3-identifier-position", 20)
 	return meta
